@@ -188,6 +188,9 @@ class BaseComponent(Manager):
             self.parent = self
 
         self._updateRoot(self)
+        # the component runs as its own root again: handlers cached when it
+        # was a root earlier must not be reused
+        self._cache_needs_refresh = True
         return self
 
     def _updateRoot(self, root):
